@@ -78,7 +78,19 @@ class Sim:
 
     # -- bookkeeping -------------------------------------------------------
     def ev(self, *a):
-        self.log.ev(*a)
+        try:
+            self.log.ev(*a)
+        except HarnessError:
+            if threading.current_thread() is threading.main_thread():
+                raise
+            # a baton thread cannot unwind the run: end the child at once
+            # (the parent reports "child died without result": a harness
+            # error, never a verdict) instead of hanging until the wall cap
+            import os
+            import sys
+            sys.stderr.write("dsim: event cap exceeded in a baton thread\n")
+            sys.stderr.flush()
+            os._exit(3)
 
     def probe(self, name, n=1):
         self.probes[name] = self.probes.get(name, 0) + n
